@@ -145,6 +145,23 @@ func (r *FileReader) SkipNext() error {
 		start := r.reader.Count()
 		payloadSizeUncompressed, payloadSizeCompressed, recordNil, err := readRecordHeaderV4(r.recordHeaderByteReader)
 		if err != nil {
+			// as in ReadNext: a file written in aligned blocks with DirectIO ends with zeros, which is its valid end
+			if errors.Is(err, MagicNumberMismatchErr) {
+				remainder, readErr := io.ReadAll(r.reader)
+				if readErr != nil {
+					return fmt.Errorf("error while reading record header seeking for file end of '%s': %w", r.file.Name(), readErr)
+				}
+				onlyZeros := true
+				for _, b := range remainder {
+					if b != 0 {
+						onlyZeros = false
+						break
+					}
+				}
+				if onlyZeros {
+					return io.EOF
+				}
+			}
 			return fmt.Errorf("error while reading record header of '%s': %w", r.file.Name(), err)
 		}
 
